@@ -62,7 +62,8 @@ def scenario(draw) -> Dict[str, Any]:
         else:
             op['browser'] = draw(st.integers(0, len(browsers) - 1))
         ops.append(op)
-    return {'seed': draw(st.integers(0, 10**6)), 'hosts': n_hosts, 'max_delay': draw(st.sampled_from([0, 20, 100, 100])),
+    joins = [draw(st.sampled_from(['start', 'late', 'late'])) for _ in range(n_hosts)]
+    return {'seed': draw(st.integers(0, 10**6)), 'hosts': n_hosts, 'joins': joins, 'max_delay': draw(st.sampled_from([0, 20, 100, 100])),
             'dup_pct': draw(st.sampled_from([0, 0, 20])), 'jitter': draw(st.sampled_from(['seed', 'seed', 'seed', 'ends'])),
             'services': services, 'browsers': browsers, 'ops': ops,
             'drops': [[draw(st.integers(0, 999)), draw(st.sampled_from(['all', 'one'])), draw(st.sampled_from(['any', 'critical', 'critical']))]
@@ -110,12 +111,29 @@ class Run:
         from zeroconf.asyncio import AsyncServiceBrowser, AsyncServiceInfo
 
         case = self.case
-        hosts = [w.add_host(f'H{i}', socks=[('v4', f'10.0.0.{i + 1}')]) for i in range(case['hosts'])]
-        self.hosts = hosts
-        for h in hosts:
-            await h.zc.async_wait_for_start()
+        # a host joins the link either at the start or just before its first use (empty cache: it has to ask)
+        first_use: Dict[int, float] = {}
+        for op in case['ops']:
+            hi_ = case['services'][op['svc']]['host'] if 'svc' in op else op.get('host')
+            if hi_ is not None and op['op'] != 'close_host':
+                first_use[hi_] = min(first_use.get(hi_, 1e18), op['t'])
+        for b in case['browsers']:
+            first_use[b['host']] = min(first_use.get(b['host'], 1e18), b['at'])
         t0 = w.clock.t
         self.t0 = t0
+        hosts: List[Any] = [None] * case['hosts']
+        self.hosts = hosts
+        ready = [asyncio.Event() for _ in range(case['hosts'])]
+        joins = case.get('joins') or ['start'] * case['hosts']
+
+        async def joiner(hi: int) -> None:
+            if joins[hi] == 'late' and hi in first_use:
+                await asyncio.sleep(max(0.0, first_use[hi] / 1000.0 - 0.05))
+            hosts[hi] = w.add_host(f'H{hi}', socks=[('v4', f'10.0.0.{hi + 1}')])
+            await hosts[hi].zc.async_wait_for_start()
+            ready[hi].set()
+
+        joiners = [asyncio.ensure_future(joiner(hi)) for hi in range(case['hosts'])]
         infos: Dict[int, Any] = {}
         versions: Dict[int, Dict[str, Any]] = {i: {'addrs': list(s['addrs']), 'port': s['port'], 'props': s['props']}
                                                for i, s in enumerate(case['services'])}
@@ -141,6 +159,7 @@ class Run:
             self.pending_tasks.append(asyncio.ensure_future(go()))
 
         async def host_worker(hi: int, ops: List[Dict[str, Any]]) -> None:
+            await ready[hi].wait()
             h = hosts[hi]
             for op in ops:
                 target = t0 + op['t'] / 1000.0
@@ -207,6 +226,7 @@ class Run:
                 self.t_last = max(self.t_last, w.clock.t)
 
         async def browser_worker(bi: int, b: Dict[str, Any]) -> None:
+            await ready[b['host']].wait()
             target = t0 + b['at'] / 1000.0
             if target > w.clock.t:
                 await asyncio.sleep(target - w.clock.t)
@@ -240,7 +260,7 @@ class Run:
         workers = [asyncio.ensure_future(host_worker(hi, ops)) for hi, ops in per_host.items()]
         workers += [asyncio.ensure_future(browser_worker(bi, b)) for bi, b in enumerate(case['browsers'])]
         workers += [asyncio.ensure_future(cancel_worker(op)) for op in case['ops'] if op['op'] == 'cancel_browser']
-        res = await asyncio.gather(*workers, return_exceptions=True)
+        res = await asyncio.gather(*(joiners + workers), return_exceptions=True)
         for r in res:
             if isinstance(r, HarnessError):
                 raise r
@@ -269,7 +289,9 @@ def execute(case: Dict[str, Any], drop: Optional[Tuple[int, Optional[int]]]):
         run.errors = list(w.errors)
         run.n_datagrams = len(w.net.trace)
         run.deliveries = list(w.net.delivered)
-        run.trace_meta = [(e['seq'], e['host'], e['dst'], len(e['data']), e['t'], len(e['data']) > 2 and not e['data'][2] & 0x80)
+        # (seq, host, dst, len, t, is non-probe query)
+        run.trace_meta = [(e['seq'], e['host'], e['dst'], len(e['data']), e['t'],
+                           len(e['data']) >= 12 and not e['data'][2] & 0x80 and e['data'][8:10] == b'\x00\x00')
                           for e in w.net.trace]
     return run
 
@@ -379,8 +401,10 @@ def check(case: Dict[str, Any]) -> Dict[str, Any]:
             drops = [(k, None) for k in range(n)]
         else:
             # "critical" datagrams: queries (browser start-up, lookups, probes) and the responses sent within 1.3 s after a query
-            q_times = [m[4] for m in base.trace_meta if m[5]]
-            critical = [i for i, m in enumerate(base.trace_meta) if m[5] or any(0 <= m[4] - tq <= 1.3 for tq in q_times)]
+            # browser / lookup queries (probes excluded) and what other hosts sent within 0.6 s after one
+            qs_ = [(m[4], m[1]) for m in base.trace_meta if m[5]]
+            critical = [i for i, m in enumerate(base.trace_meta)
+                        if m[5] or any(0 <= m[4] - tq <= 0.6 and m[1] != hq for tq, hq in qs_)]
             for spec in case['drops']:
                 frac, mode = spec[0], spec[1]
                 cls = spec[2] if len(spec) > 2 else 'any'
